@@ -5,6 +5,7 @@ C08 — line-protocol driver.
   reset                      Irc.reset() called directly (stub driver runs)
   cfg   k:v k:v ...          the configuration changes while the bot runs (same keys as `new`)
   dstart                     SocketDriver(irc)                       (real driver runs)
+  restart <now>              the process is restarted: new Irc, new SocketDriver, same networks data base
   run <now> <due> <msg> ...  one SocketDriver.run(); each message is hexcmd;hexargs;hexnick
 Observation (TAB separated): outs fsm ls req ack nak next cur auth+sent+scramstep dec nick after exc wanted policies lastdisc
 -/
@@ -195,6 +196,14 @@ def stepD (d : DState) : List String → DState × String
     match d.cfg with
     | some cfg => let s := drvStart cfg d.st; ({ d with st := s }, observeD s)
     | none => (d, "bad-op")
+  | ["restart", now] =>
+    -- the bot is stopped and started again: the networks data base persists, everything else is new
+    match d.cfg, now.toNat? with
+    | some cfg, some now =>
+      let base : St := { db := d.st.db, now := now, drv := { sock := d.st.drv.sock }, joinBad := d.st.joinBad }
+      let s := drvStart cfg (initSt cfg base)
+      ({ d with st := s }, observeD s)
+    | _, _ => (d, "bad-op")
   | "run" :: now :: due :: msgs =>
     match d.cfg, now.toNat?, msgs.mapM decMsg with
     | some cfg, some now, some ms =>
